@@ -254,6 +254,9 @@ class StyleProperties:
 
     @classmethod
     def extract(cls, context: StyleParsingContext, xml_attrib: str):
+      if xml_attrib not in ("true", "false"):
+        raise ValueError("itts:fillLineGap must be true or false")
+
       return xml_attrib == "true"
 
     @classmethod
